@@ -250,6 +250,24 @@ fn metamorphic_case(ctx: &Ctx, rep: &mut Report, case: u64, g: &mut Sm64) {
     if !check("chain permutation", permuted, 1e-4, rep) {
         return;
     }
+    // the same logical array in other memory layouts (the functions take views)
+    {
+        use ndarray::ShapeBuilder;
+        let mut f = Array3::<f32>::zeros((c, n, p).f());
+        f.assign(&base);
+        if !check("column-major storage", f, 1e-4, rep) {
+            return;
+        }
+        let buf = Array3::from_shape_fn((n, c, p), |(t, i, j)| base[[i, t, j]]).permuted_axes([1, 0, 2]);
+        if !check("axis-permuted view of a draws-major buffer", buf, 1e-4, rep) {
+            return;
+        }
+        let wide = Array3::from_shape_fn((c, n, 2 * p), |(i, t, j)| if j % 2 == 0 { base[[i, t, j / 2]] } else { -7.5 });
+        let strided = wide.slice_move(ndarray::s![.., .., 0..;2]);
+        if !check("strided view (every second column of a wider array)", strided, 1e-4, rep) {
+            return;
+        }
+    }
     // other parameters' values do not matter
     if p >= 2 {
         let keep = g.below(p);
